@@ -88,6 +88,10 @@ def detect_all(extra):
     for seed_dir in sorted(glob.glob("/verif/seeded/*/")):
         meta = json.load(open(os.path.join(seed_dir, "meta.json"), encoding="utf-8"))
         prop = meta["property"][:3]
+        if (meta.get("detection") or {}).get("tier") == "not-claimed":
+            results.append({"id": meta["id"], "property": prop, "status": "not-claimed (outside the statement)"})
+            print(json.dumps(results[-1]), flush=True)
+            continue
         if (meta.get("detection") or {}).get("tier") == "thorough" and "thorough" not in extra:
             results.append({"id": meta["id"], "property": prop, "status": "thorough-tier-only (not run)"})
             print(json.dumps(results[-1]), flush=True)
@@ -116,7 +120,8 @@ def detect_all(extra):
     os.makedirs("/verif/selftest_results", exist_ok=True)
     with open("/verif/selftest_results/seeded.json", "w", encoding="utf-8") as stream:
         json.dump(results, stream, indent=1)
-    missed = [r for r in results if r["status"] not in ("detected", "thorough-tier-only (not run)")]
+    missed = [r for r in results if r["status"] not in ("detected", "thorough-tier-only (not run)",
+                                                        "not-claimed (outside the statement)")]
     print(f"SEEDED: {len(results) - len(missed)}/{len(results)} detected or thorough-only")
     return 0 if not missed else 1
 
